@@ -57,7 +57,11 @@ func (r *vfPoolRun) double(addr string) *vfBackend {
 func (r *vfPoolRun) dispatch(seq bool) {
 	g := vfGid()
 	r.tr.Emit(vfM{"ev": "begin", "g": g})
-	err := r.cur.Send(r.msg)
+	var err error
+	if pm := vfCatch(func() { err = r.cur.Send(r.msg) }); pm != "" {
+		r.tr.Emit(vfM{"ev": "panic", "g": g, "msg": pm})
+		return
+	}
 	idx := -1
 	if seq {
 		idx = r.cur.index
